@@ -90,10 +90,10 @@ int main(int argc, char** argv){
     else if(op=="warn"){ std::cout<<"W "<<hx::hex(p->GetWarningString())<<"\n"; }
     else if(op=="state"){ // wrapper/engine fields the wrapper model tracks
       std::cout<<"S sim "<<TestIPhreeqc::simulation(p)<<" first "<<TestIPhreeqc::first_read_input(p)
-               <<" ierr "<<TestIPhreeqc::get_input_errors(p)<<" nsel "<<p->GetSelectedOutputCount()
                <<" clr "<<TestIPhreeqc::clear_accumulated(p)<<" upd "<<TestIPhreeqc::update_components(p)
                <<" db "<<TestIPhreeqc::database_loaded(p)
-               <<" errstr "<<hx::hex(p->GetErrorString())<<" warnstr "<<hx::hex(p->GetWarningString())<<"\n"; }
+               <<" errrep "<<(std::string(p->GetErrorString()).empty()?0:1)<<" errlines "<<(p->GetErrorStringLineCount()?1:0)
+               <<" acc "<<hx::hex(p->GetAccumulatedLines())<<"\n"; }
     else std::cout<<"bad-op "<<op<<"\n";
     } catch (const std::exception& e) {
       std::cout<<"R exception "<<hx::hex(e.what())<<"\n";
